@@ -21,14 +21,7 @@ pub const HONEST_TICK_LIMIT: u64 = u64::MAX;
 /// Accepted bases for this build: matching recorded proofs + synthetic ToyLayout proofs.
 pub fn collect_bases(ctx: &mut Ctx, scenario: &str, n_toy: u64, toy_offset: u64) -> Vec<Base> {
     let mut bases = Vec::new();
-    match proofrun::matching_recorded_bases() {
-        Ok(v) => {
-            for (b, _) in v {
-                bases.push(b);
-            }
-        }
-        Err(e) => ctx.harness_error(&format!("loading recorded proofs: {e}")),
-    }
+    // synthetic bases first: a violation found on one of them can be shape-shrunk
     for i in 0..n_toy {
         let mut rng = Rng::derive(ctx.seed, &format!("{scenario}.toybase"), toy_offset + i);
         let params = crate::toyprover::ToyParams::draw(&mut rng, ctx.is_quick());
@@ -36,6 +29,14 @@ pub fn collect_bases(ctx: &mut Ctx, scenario: &str, n_toy: u64, toy_offset: u64)
             Ok(b) => bases.push(b),
             Err(e) => ctx.harness_error(&format!("toy prover self-check failed: {e} params={params:?}")),
         }
+    }
+    match proofrun::matching_recorded_bases() {
+        Ok(v) => {
+            for (b, _) in v {
+                bases.push(b);
+            }
+        }
+        Err(e) => ctx.harness_error(&format!("loading recorded proofs: {e}")),
     }
     bases
 }
@@ -329,6 +330,53 @@ pub fn minimise(faults: &[Fault], still_fails: &mut dyn FnMut(&[Fault]) -> bool)
     cur
 }
 
+/// Shape shrinking for violations found on a synthetic (ToyLayout) base: the smallest honest toy
+/// proof on which a single fault of the same class (kind @ position class) is judged a violation
+/// by `violates`. Returns the smaller base and the concrete fault.
+pub fn shrink_toy(seed: u64, fault: &Fault, violates: &mut dyn FnMut(&Base, &Fault) -> bool) -> Option<(Base, Fault)> {
+    use crate::toyprover::{honest_base, ToyParams};
+    let want_class = fault.class();
+    for (t, steps, last) in [(1u32, vec![0u32, 1], 0u32), (2, vec![0, 1], 1), (2, vec![0, 1, 1], 0), (3, vec![0, 2], 1), (3, vec![0, 1, 1, 1], 0)] {
+        for nq in [1u64, 2, 5] {
+            for nf in [0u64, 1000] {
+                let p = ToyParams { log_trace: t, log_blowup: 1, steps: steps.clone(), log_last: last, n_queries: nq, pow_bits: 20, n_friendly: nf, seed: seed ^ (t as u64) << 8 ^ nq };
+                let Ok(base) = honest_base(&p) else { continue };
+                // candidate positions of the same class: first, last and middle
+                let cands: Vec<Fault> = match fault {
+                    Fault::Set { value, .. } => {
+                        let leaves: Vec<_> = image::leaves(&base.image).into_iter().filter(|l| format!("set@{}", image::path_class(&l.path)) == want_class).collect();
+                        let pick: Vec<usize> = if leaves.is_empty() { vec![] } else { vec![0, leaves.len() / 2, leaves.len() - 1] };
+                        pick.into_iter()
+                            .map(|i| {
+                                let l = &leaves[i];
+                                let old = image::get(&base.image, &l.path).unwrap();
+                                // keep "+1" semantics where possible, otherwise the recorded value
+                                let v = match image::felt_of(old) {
+                                    Some(f) => image::felt_hex(&(f + Felt::ONE)),
+                                    None => old.as_u64().map(|n| (n + 1).to_string()).unwrap_or_else(|| value.clone()),
+                                };
+                                Fault::Set { path: image::path_str(&l.path), value: v }
+                            })
+                            .collect()
+                    }
+                    Fault::Delete { .. } => image::vectors(&base.image)
+                        .into_iter()
+                        .filter(|(p, len)| *len > 0 && format!("delete@{}", image::path_class(p)) == want_class)
+                        .flat_map(|(p, len)| [0, len - 1].into_iter().map(move |i| Fault::Delete { path: image::path_str(&p), index: i }))
+                        .collect(),
+                    _ => vec![],
+                };
+                for c in cands {
+                    if violates(&base, &c) {
+                        return Some((base, c));
+                    }
+                }
+            }
+        }
+    }
+    None
+}
+
 // ------------------------------------------------------------------------------------------
 // C02
 // ------------------------------------------------------------------------------------------
@@ -416,6 +464,20 @@ pub fn c02(ctx: &mut Ctx) {
                     continue;
                 }
                 let class = format!("C02|accepted|{}", fault.class());
+                if ctx.seen_class(&class) {
+                    ctx.violation(&class, "", Value::Null);
+                    continue;
+                }
+                if base.layout == "toy" {
+                    // minimise the synthetic base
+                    let shrunk = shrink_toy(ctx.seed ^ unit, &fault, &mut |b, f| run_faults(b, std::slice::from_ref(f), u64::MAX).map(|m| m.run.outcome.is_accept()).unwrap_or(false));
+                    if let Some((b2, f2)) = shrunk {
+                        let m2 = run_faults(&b2, std::slice::from_ref(&f2), u64::MAX).unwrap();
+                        let replay = replay_envelope("C02", scenario, &ctx.variant, replay_body(&b2, &[f2.clone()], "mutant-accepted", &m2.run.outcome, json!({"minimised_from": base.name})));
+                        ctx.violation(&class, &format!("single fault {:?} on accepted base {} is accepted (minimised from {})", f2, b2.name, base.name), replay);
+                        continue;
+                    }
+                }
                 let replay = replay_envelope("C02", scenario, &ctx.variant, replay_body(base, &[fault.clone()], "mutant-accepted", &m.run.outcome, json!({"replacement": kind})));
                 ctx.violation(&class, &format!("single fault {:?} on accepted base {} is accepted", fault, base.name), replay);
             }
